@@ -19,6 +19,8 @@ def _c19_units(tier, seed):
     add('msan', 'C08', 'd', 8, 200, 2, cpu=120)
     # refactor / re-solve histories (reuse of storage that moves during a refactorization) under ASan: memory-class keys only
     add('asan', 'C06', 'sdcz', 250, 8000, 25)
+    # storage-acquisition variants incl. the capacity walk (every growth site at the exactly-full state) under ASan: memory-class keys only
+    add('asan', 'C07', 'sdcz', 600, 6000, 25, cpu=20)
     if tier:
         add('plain', 'C05', 'd', 0, 100, 4, wrapper=vg, env={'VF_NOJUNK': '1'}, cpu=120, wall=1800)
         add('plain', 'C15', 'd', 0, 100, 4, wrapper=vg, env={'VF_NOJUNK': '1'}, cpu=120, wall=1800)
@@ -48,7 +50,7 @@ PLAN['C19'] = dict(
     key_filter=r'^(asan:|ubsan:|msan:|valgrind:|crash:|hang@|abort:|leak|badfree|output-depends-on-heap-junk)',
     rule='70 % of the cases: lifecycle programs over the computational routines (create -> get_perm_c/sp_preorder -> ?gstrf -> random sequence of ?gstrs, ?gscon, ?gsrfs, ?PivotGrowth, ?QuerySpace, sp_?trsv, matrix copy -> destroy) with forced exit paths '
          '(singular input, too-small and sufficient caller workspace, injected ?expand failure, size query), each executed twice under different junk fill of fresh library allocations (bitwise equal outputs), ledger empty at the end, no bad free; 30 % of the cases: expert-driver lifecycles (?gssvx / ?gsisx with equilibration, MC64 row permutation, refinement, estimates) ended by a too-short caller workspace of random length, an injected growth failure, a size query or run to completion and re-solved with Fact = FACTORED, same two-execution differential and ledger; '
-         'the same programs under MemorySanitizer and valgrind memcheck, plus the C01/C05/C06/C08/C15 workloads under MemorySanitizer and the C06 refactor/re-solve histories under ASan (only memory-class keys count here); every other check of this suite also runs under ASan+UBSan with the ledger; '
+         'the same programs under MemorySanitizer and valgrind memcheck, plus the C01/C05/C06/C08/C15 workloads under MemorySanitizer and the C06 refactor/re-solve histories and C07 storage variants (capacity walk) under ASan (only memory-class keys count here); every other check of this suite also runs under ASan+UBSan with the ledger; '
          'non-trivial = a successful factorization followed by at least one further routine, or a forced exit path',
     counter_names=['post-factorization routine calls'],
     min_nontrivial={'quick': 2500, 'thorough': 40000},
